@@ -27,6 +27,7 @@ import (
 	"verif/engine/seqx"
 	"verif/engine/vsched"
 	"verif/engine/vtime"
+	"verif/harness/c05"
 	"verif/harness/reg"
 	"verif/refwire"
 )
@@ -37,7 +38,7 @@ func init() {
 		Level: "model_checking",
 		Rule: "Part A: explicit-state BFS (canonical cache-state de-duplication, successor by replay on a fresh Registry) over histories of {authenticate(credential, source, hint) + record, authenticate without record, clock advance 1 s / 599 s / 600 s, reload to another user list}; user sets: distinct credentials, shared credential, two names colliding on the 4-byte hint, 18 users (cache limit 16), five sources colliding in one cache bucket (4 ways); hint mandatory on/off; oracle on every transition = reference rule of the statement + a cold registry with the same users + returned metadata/policy. " +
 			"Part B: stateless exploration of all interleavings with <=Ds preemptions (atomic reads and writes, mutex operations are scheduling points) of discovery, recording and reload; oracle = linearizable outcome per call, and the reference rule on quiescent probes afterwards. " +
-			"Part C: the real server (TCP and UDP) with real clients of several users from shared and distinct source addresses, reload of the user list between and during connections; oracle = UserName() of every accepted session, rejected removed users. Part D: nine reload shapes (identical, password changed, passwords swapped, renamed, added, quota only, all but one removed, changed and back, removed and back) x users registered by {password, hashedPassword, both} x transport x hint policy: after every reload each credential that ever appeared is dialled twice; served iff in the current list, attributed to its name.",
+			"Part C: the real server (TCP and UDP) with real clients of several users from shared and distinct source addresses, reload of the user list between and during connections; oracle = UserName() of every accepted session, rejected removed users. Part D: nine reload shapes (identical, password changed, passwords swapped, renamed, added, quota only, all but one removed, changed and back, removed and back) x users registered by {password, hashedPassword, both} x transport x hint policy: after every reload each credential that ever appeared is dialled twice; served iff in the current list, attributed to its name. Part E: five reloads that retire the credential bob/pw2 x user representation x transport, then open requests under it (own hint / none / another user's / repeated) from the address bob was served at and from a fresh one, on UDP also from bob's very address and port while his older session is still open: no session is created.",
 		Assumptions: []string{
 			"a discovery that overlaps a reload may be decided against either user list (it is linearizable inside its call interval); only a discovery that starts after the reload returned must use the new list",
 			"when several registered users share the presented credential and the hint does not single one out, any of them is an acceptable attribution (the statement promises cache independence for distinct credentials only)",
@@ -51,6 +52,7 @@ func init() {
 			us = append(us, reloadShapeUnits(tier)...)
 			us = append(us, hookUnits(tier)...)
 			us = append(us, wideUnits(tier)...)
+			us = append(us, c05.RetiredUnits("C07", tier)...)
 			return us
 		},
 		QuickBudget:    600,
